@@ -225,4 +225,32 @@ theorem witness_superset_exact_isAny :
     mem superset_exact_isAny_v superset_exact_isAny_A = false ∧
     superset_exact_isAny_A.anyUnknown Unknown.exactIsAny = true := by decide
 
+/-! ### non-vacuity of the hypotheses of the `_partial` theorems (concrete, non-trivial states) -/
+
+def nv_K : Kind :=
+  (Kind.mk {} .none (.some (.mk (.cons [97] (Kind.mk { integer := true } (.some (.mk (.cons [0] (Kind.mk { bytes := true } .none .none) .nil) (.exact (Kind.mk { float := true } .none .none)))) .none) (.cons [98] (Kind.mk { bytes := true, undefined := true } .none .none) .nil)) (.infinite { bytes := true, integer := true, float := true, boolean := true, timestamp := true, regex := true, null := true, array := true, object := true }))))
+def nv_v : Value :=
+  (.obj (.cons [97] (.arr (.cons (.bytes [115]) (.cons (.float 0x3ff0000000000000) .nil))) (.cons [99] (.bool true) .nil)))
+def nv_B : Kind :=
+  (Kind.mk { null := true } (.some (.mk (.cons [0] (Kind.mk { integer := true } .none .none) .nil) (.exact (Kind.mk { bytes := true } .none .none)))) .none)
+
+/-- `at_sound_class`, `insert_sound_partial`: a nested member, a key-sorted kind, paths through a known
+    field, an unknown field and a negative index into an array of unknown length. -/
+example : nv_v.Sorted = true ∧ mem nv_v nv_K = true ∧ nv_K.SortedK = true ∧
+    atClass nv_K [.field [97], .index (-1)] = .none ∧ atClass nv_K [.field [99]] = .none ∧
+    Spec.nonNegPath [.field [97], .index 3] = true ∧
+    anyOnPath optionalIdx nv_K [.field [97], .index 3] = false := by decide
+
+/-- `union_sound_partial`, `superset_sound_partial`, `mem_iff_superset_partial`. -/
+example : nv_K.SortedK = true ∧ nv_B.SortedK = true ∧ unionClass nv_K nv_B = .none ∧
+    nv_K.hasNonAnyInf = false ∧ nv_K.WF = true ∧ nv_K.anyUnknown Unknown.exactIsAny = false ∧
+    nv_K.isSuperset nv_v.kindOf = true := by decide
+
+/-- `insert_sound_partial` needs the kind met at each segment not to be a union with that segment's
+    collection state: `nv_K` at `.a` is `integer or array`, so `.a[3]` is in `D_insert_union_alt`
+    (and so is any path through an `any` kind, which is a union); `.b` and `.c` are not. -/
+example : anyOnPath unionAlt nv_K [.field [97], .index 3] = true ∧
+    anyOnPath unionAlt nv_K [.field [98]] = false ∧ anyOnPath unionAlt nv_K [.field [99]] = false ∧
+    anyOnPath optionalIdx nv_K [.field [99]] = false := by decide
+
 end C19.W
